@@ -341,6 +341,14 @@ pub fn run_case(case: &ModelCase, wroot: &Path, flavour: Flavour, stats: &mut St
   let mut model = Model::new(cfg.profile.compact_unsafe());
   let mut reader_expect: BTreeMap<usize, Contents> = BTreeMap::new();
   let mut versions: BTreeSet<u64> = BTreeSet::new();
+  // A commit that succeeds although shrinking the log failed (injected fault)
+  // may leave its operations in the log; whether a later handle replays them
+  // (idempotently) is the code's business, the properties only speak of
+  // contents. Handles opened after such a fault may therefore start with a
+  // constant offset in the indexes `add_document` returns.
+  let mut log_leftovers_possible = false;
+  let mut may_replay_leftovers: BTreeSet<usize> = BTreeSet::new();
+  let mut index_offset: BTreeMap<usize, u32> = BTreeMap::new();
   let mut escapes_seen = 0usize;
 
   macro_rules! violate {
@@ -433,6 +441,12 @@ pub fn run_case(case: &ModelCase, wroot: &Path, flavour: Flavour, stats: &mut St
       let fired = fs.with(|c| !c.fired.is_empty());
       fs.disarm();
       if fired {
+        if let Op::Commit { h } = inner.as_ref() {
+          log_leftovers_possible = true;
+          // the faulted handle's own queue is cleared (or retried) by the commit
+          index_offset.remove(h);
+          may_replay_leftovers.remove(h);
+        }
         stats.inc(&format!("fault.{}", kind));
         stats.inc(if first.is_ok() { "probe.faulted_call_succeeded" } else { "probe.faulted_call_failed_then_retried" });
       }
@@ -503,15 +517,30 @@ pub fn run_case(case: &ModelCase, wroot: &Path, flavour: Flavour, stats: &mut St
       match op {
         Op::NewWriter { h } => {
           model.new_writer(*h);
+          index_offset.remove(h);
+          if log_leftovers_possible {
+            may_replay_leftovers.insert(*h);
+          } else {
+            may_replay_leftovers.remove(h);
+          }
           if !outcome.is_ok() {
             violate!(&props, "call-failed", "new_writer", step, format!("{} -> {}", op.short(), outcome.short()));
           }
         }
         Op::Add { h, id, ver } => {
           versions.insert(*ver);
-          let expect = model.add(*h, id, version_of(cfg.profile, id, *ver));
+          let base = model.add(*h, id, version_of(cfg.profile, id, *ver));
+          let expect = base + index_offset.get(h).copied().unwrap_or(0);
+          // only the first add of a handle reveals what it replayed
+          let first_add_after_fault = may_replay_leftovers.remove(h);
           match &outcome {
             Outcome::OkIndex(i) if *i == expect => {}
+            Outcome::OkIndex(i) if *i > expect && first_add_after_fault => {
+              // first add of a handle opened after a faulted commit: it replayed
+              // log leftovers; from now on its indexes are shifted by a constant
+              stats.inc("probe.handle_replayed_log_leftovers");
+              index_offset.insert(*h, *i - base);
+            }
             Outcome::OkIndex(i) => violate!(
               &props,
               "add-index-mismatch",
@@ -530,12 +559,16 @@ pub fn run_case(case: &ModelCase, wroot: &Path, flavour: Flavour, stats: &mut St
         }
         Op::Commit { h } => {
           model.commit(*h);
+          index_offset.remove(h);
+          may_replay_leftovers.remove(h);
           if !outcome.is_ok() {
             violate!(&props, "call-failed", "commit", step, format!("{} -> {}", op.short(), outcome.short()));
           }
         }
         Op::Rollback { h } => {
           model.rollback(*h);
+          index_offset.remove(h);
+          may_replay_leftovers.remove(h);
           if !outcome.is_ok() {
             violate!(&props, "call-failed", "rollback", step, format!("{} -> {}", op.short(), outcome.short()));
           }
